@@ -195,7 +195,7 @@ Qed.
 
 Definition storage_step (o : option store) (out : list rmsg) (o' : option store) : Prop :=
   (out = [] /\ o' = o) \/
-  (exists s', out = [RBind s'] /\ o' = Some s' /\
+  (exists s', out = [RBind s' (-1)] /\ o' = Some s' /\
      incl (mids (mapping s')) (mids (omap o)) /\ NoDup (mids (mapping s'))).
 
 Lemma unmap_fact : forall n a c n' out, nrt_unmap n a c = Some (n', out) ->
@@ -253,7 +253,7 @@ Lemma useFreeID_fact : forall ports n id a c q n' out,
   learnQ n = (a, c) :: q ->
   nrt_useFreeID ports n id = Some (n', out) ->
   ~ In id (mids (omap (nstorage n))) -> NoDup (mids (omap (nstorage n))) ->
-  exists s', out = [RBind s'] /\ nstorage n' = Some s' /\ learnQ n' = q /\
+  exists s', out = [RBind s' id] /\ nstorage n' = Some s' /\ learnQ n' = q /\
     incl (mids (mapping s')) (id :: mids (omap (nstorage n))) /\ NoDup (mids (mapping s')).
 Proof.
   intros ports n id a c q n' out Q H F N. unfold nrt_useFreeID in H. rewrite Q in H.
@@ -290,8 +290,15 @@ Proof.
   eapply incl_tran; eassumption.
 Qed.
 
-Lemma useFreeID_empty : forall ports n id, learnQ n = [] -> nrt_useFreeID ports n id = Some (n, []).
-Proof. intros ports n id Q. unfold nrt_useFreeID. rewrite Q. reflexivity. Qed.
+(* no address waits: the answer is the unchanged mapping *)
+Lemma useFreeID_empty : forall ports n id, learnQ n = [] ->
+  exists s', nrt_useFreeID ports n id =
+             Some ({| nstorage := Some s'; inv_map := inv_map n; learnQ := [] |}, [RBind s' id]) /\
+             mapping s' = omap (nstorage n).
+Proof.
+  intros ports n id Q. unfold nrt_useFreeID. rewrite Q.
+  eexists. split; [reflexivity |]. destruct (nstorage n); reflexivity.
+Qed.
 
 (* ---- what the realtime operations do --------------------------------------- *)
 Lemma store_handleCC_mapping : forall s id v s' m, store_handleCC s id v = Some (s', m) ->
@@ -339,11 +346,12 @@ Proof.
   inversion H; reflexivity.
 Qed.
 
-Lemma deliver_bind_fact : forall r ns r', rt_deliver r (RBind ns) = Some r' ->
-  omap (rstorage r') = mapping ns /\ pq_pop (pending r) = Some (pending r') /\ watch r' = watch r.
+Lemma deliver_bind_fact : forall r ns ans r', rt_deliver r (RBind ns ans) = Some r' ->
+  omap (rstorage r') = mapping ns /\
+  (if ans =? -1 then Some (pending r) else pq_pop (pending r)) = Some (pending r') /\ watch r' = watch r.
 Proof.
-  intros r ns r' H. cbn [rt_deliver] in H.
-  destruct (pq_pop (pending r)) as [p' |]; [| discriminate].
+  intros r ns ans r' H. cbn [rt_deliver] in H.
+  destruct (if ans =? -1 then Some (pending r) else pq_pop (pending r)) as [p' |]; [| discriminate].
   destruct (rstorage r) as [old |].
   - destruct (cloneValues ns old) as [ns' |] eqn:C; [| discriminate].
     inversion H; subst. cbn [rstorage pending watch omap]. apply cloneValues_mapping in C. auto.
@@ -360,14 +368,14 @@ Inductive chain : list mapent -> list rmsg -> list tag -> list Z -> Prop :=
 | c_w prev ch tg A : chain prev ch tg A -> chain prev (RWatch :: ch) (TW :: tg) A
 | c_r prev ch tg A : chain prev ch tg A -> chain prev (RUnwatch :: ch) (TR :: tg) A
 | c_f prev s ch tg A : incl (mids (mapping s)) (mids prev) -> NoDup (mids (mapping s)) ->
-    chain (mapping s) ch tg A -> chain prev (RBind s :: ch) (TBf :: tg) A
-| c_a prev s id ch tg A : incl (mids (mapping s)) (id :: mids prev) -> NoDup (mids (mapping s)) ->
-    chain (mapping s) ch tg A -> chain prev (RBind s :: ch) (TBa :: tg) (id :: A).
+    chain (mapping s) ch tg A -> chain prev (RBind s (-1) :: ch) (TBf :: tg) A
+| c_a prev s id ch tg A : id <> -1 -> incl (mids (mapping s)) (id :: mids prev) -> NoDup (mids (mapping s)) ->
+    chain (mapping s) ch tg A -> chain prev (RBind s id :: ch) (TBa :: tg) (id :: A).
 
 Fixpoint lastm (prev : list mapent) (ch : list rmsg) : list mapent :=
   match ch with
   | [] => prev
-  | RBind s :: r => lastm (mapping s) r
+  | RBind s _ :: r => lastm (mapping s) r
   | _ :: r => lastm prev r
   end.
 
@@ -385,7 +393,7 @@ Proof.
     destruct Hx; [left; auto | right; assumption].
   - intros x Hx. apply IHchain in Hx. apply in_app_iff in Hx. apply in_app_iff.
     destruct Hx as [Hx | Hx]; [| right; right; assumption].
-    apply H in Hx. destruct Hx; [right; left; assumption | left; assumption].
+    apply H0 in Hx. destruct Hx; [right; left; assumption | left; assumption].
 Qed.
 
 Lemma chain_last_nodup : forall prev ch tg A, chain prev ch tg A -> NoDup (mids prev) ->
@@ -569,7 +577,7 @@ Section Handshake.
   Lemma GI_bind_f : forall nst lq r cn cr pend tg P A s,
     GI nst lq r cn cr pend tg P A -> cn = [] ->
     incl (mids (mapping s)) (mids (omap nst)) -> NoDup (mids (mapping s)) ->
-    GI (Some s) lq r cn (cr ++ [RBind s]) pend (tg ++ [TBf]) P A.
+    GI (Some s) lq r cn (cr ++ [RBind s (-1)]) pend (tg ++ [TBf]) P A.
   Proof.
     intros nst lq r cn cr pend tg P A s I HP Hi Hn. destruct I.
     constructor; try assumption.
@@ -611,7 +619,7 @@ Section Handshake.
 
   Lemma GI_clear : forall nst lq r cn cr pend tg P A,
     GI nst lq r cn cr pend tg P A -> cn = [] ->
-    GI (Some empty_store) [] r cn (cr ++ map (fun _ => RUnwatch) lq ++ [RBind empty_store])
+    GI (Some empty_store) [] r cn (cr ++ map (fun _ => RUnwatch) lq ++ [RBind empty_store (-1)])
        pend (tg ++ map (fun _ => TR) lq ++ [TBf]) P A.
   Proof.
     intros nst lq r cn cr pend tg P A I HP. destruct I.
@@ -647,7 +655,7 @@ Definition qstep (pend : Z) (ch : list tag) (e : event) (r : list obs) : option 
   | EDelN => Some (pend, ch ++ ans_tags r)
   | EDelR => match ch with
              | [] => Some (pend, ch)
-             | t :: ch' => Some ((if is_TB t && (0 <? pend) then pend - 1 else pend), ch')
+             | t :: ch' => Some ((if is_TBa t && (0 <? pend) then pend - 1 else pend), ch')
              end
   end.
 
@@ -668,7 +676,7 @@ Definition ou_ids (r : list obs) : list Z := flat_map (fun o => match o with OU 
 Definition pstep (P : list Z) (ch : list tag) (e : event) (r : list obs) : list Z :=
   match e with
   | ECC _ _ _ _ => P ++ ou_ids r
-  | EDelR => match ch with t :: _ => if is_TB t then tl P else P | [] => P end
+  | EDelR => match ch with t :: _ => if is_TBa t then tl P else P | [] => P end
   | _ => P
   end.
 
@@ -689,7 +697,7 @@ Lemma ou_ids_cc : forall (m : option msg) (used : bool) id,
 Proof. intros. destruct m, used; reflexivity. Qed.
 
 Definition out_tags (out : list rmsg) : list tag :=
-  map (fun m => match m with RWatch => TW | RUnwatch => TR | RBind _ => TBf end) out.
+  map (fun m => match m with RWatch => TW | RUnwatch => TR | RBind _ _ => TBf end) out.
 
 Lemma op_tags_out : forall out, op_tags (map obs_of_rmsg out) = out_tags out.
 Proof. induction out as [| m out IH]; [reflexivity |]. destruct m; cbn; f_equal; apply IH. Qed.
@@ -856,7 +864,9 @@ Section Step.
         constructor; try assumption.
         * rewrite g_P0, <- app_assoc. reflexivity.
         * apply chain_app; [assumption | auto |].
-          constructor; [rewrite <- g_last0; assumption | assumption | constructor].
+          assert (Hid : id <> -1).
+          { pose proof g_pos0 as Gp. rewrite Forall_forall in Gp. specialize (Gp _ HinP). lia. }
+          constructor; [exact Hid | rewrite <- g_last0; assumption | assumption | constructor].
         * rewrite lastm_app. reflexivity.
         * rewrite existsb_app. cbn. rewrite orb_false_r. intro E. apply g_quiet0 in E. discriminate.
         * apply baf_app; [assumption | reflexivity | intro E; apply g_quiet0 in E; discriminate].
@@ -872,14 +882,14 @@ Section Step.
         exists []. rewrite ER. constructor; try assumption. reflexivity.
       + destruct (rt_deliver (wr w) m) as [r' |] eqn:D; [| discriminate].
         inversion Hs; subst w' r; clear Hs. cbn [wn wr chN chR].
-        inversion g_chain0 as [| ? ? tgr ? C | ? ? tgr ? C | ? s ? tgr ? Hi Hn C | ? s id ? tgr A' Hi Hn C]; subst.
+        inversion g_chain0 as [| ? ? tgr ? C | ? ? tgr ? C | ? s ? tgr ? Hi Hn C | ? s id ? tgr A' Hid Hi Hn C]; subst.
         * (* add-watch *)
-          inversion Hq; subst p' tg'; clear Hq. cbn [is_TB andb].
+          inversion Hq; subst p' tg'; clear Hq. cbn [is_TBa andb].
           cbn [rt_deliver] in D. inversion D; subst r'; clear D.
           exists A. cbn [rstorage pending watch] in *.
           constructor; try assumption; cbn [wn wr chN chR rstorage pending watch]; try assumption; try lia; try reflexivity.
         * (* remove-watch *)
-          inversion Hq; subst p' tg'; clear Hq. cbn [is_TB andb].
+          inversion Hq; subst p' tg'; clear Hq. cbn [is_TBa andb].
           cbn [rt_deliver] in D. inversion D; subst r'; clear D.
           cbn [wsim] in g_watch0. destruct (Z.ltb_spec 0 (watch (wr w))) as [Hw | Hw]; [| discriminate].
           exists A. cbn [rstorage pending watch] in *.
@@ -894,21 +904,22 @@ Section Step.
             apply andb_true_iff in Bf. destruct Bf as [E _]. apply negb_true_iff in E. exact E. }
           subst A.
           inversion Hq; subst p' tg'; clear Hq.
-          destruct (deliver_bind_fact _ _ _ D) as [Hm [Hpop Hw]].
+          destruct (deliver_bind_fact _ _ _ _ D) as [Hm [Hpop Hw]].
           rewrite HN in *. cbn [app] in *.
-          rewrite (pq_pop_nil _ g_rep0) in Hpop. inversion Hpop as [Hp].
-          cbn [zlen length Z.of_nat]. cbn [is_TB andb]. rewrite Z.ltb_irrefl.
+          cbn [Z.eqb Pos.eqb Z.opp] in Hpop. inversion Hpop as [Hp].
+          cbn [zlen length Z.of_nat]. cbn [is_TBa andb].
           exists []. cbn [wn wr chN chR]. cbn [lastm] in g_last0. cbn [wsim] in g_watch0.
           constructor; try assumption; try (rewrite <- Hp; assumption); try (rewrite Hm; assumption);
             try (rewrite Hw; assumption); try reflexivity;
             try (intros x _ []); try (eapply trok_tail; eassumption); try (intros _; reflexivity);
             try (eapply baf_tail; eassumption).
         * (* answering bind: its controller is the oldest pending one *)
-          destruct (deliver_bind_fact _ _ _ D) as [Hm [Hpop Hw]].
+          destruct (deliver_bind_fact _ _ _ _ D) as [Hm [Hpop Hw]].
           cbn [app] in *.
+          destruct (Z.eqb_spec id (-1)) as [E1 | _]; [contradiction |].
           destruct (pq_pop_spec _ _ _ g_rep0) as [q' [Eq Rq]]. rewrite Hpop in Eq. inversion Eq; subst q'; clear Eq.
           assert (Hz : 0 <? zlen (id :: A' ++ chN w) = true) by (unfold zlen; cbn [length]; apply Z.ltb_lt; lia).
-          rewrite Hz in Hq. cbn [is_TB andb] in Hq.
+          rewrite Hz in Hq. cbn [is_TBa andb] in Hq.
           replace (zlen (id :: A' ++ chN w) - 1) with (zlen (A' ++ chN w)) in Hq
             by (unfold zlen; cbn [length]; lia).
           inversion Hq; subst p' tg'; clear Hq.
